@@ -242,6 +242,10 @@ namespace vh
 
 // provided by the property TU
 static void check_case(vg::Src& s, vh::Ctx& c);
+#ifdef VH_HAS_ENUM
+static size_t enum_count();
+static std::vector<uint8_t> enum_case(size_t k);
+#endif
 
 namespace vh
 {
@@ -359,12 +363,23 @@ namespace vh
         std::string mode, out, replay;
         long long seed = 1;
         long n = 1000, max_size = 100, scale = 20;
+        long enum_from = 0, enum_to = -1;
+        (void) enum_from;
+        (void) enum_to;
         for (int i = 1; i < argc; ++i)
         {
             std::string a = argv[i];
             auto next = [&]() -> std::string { return i + 1 < argc ? argv[++i] : ""; };
             if (a == "--rc")
                 mode = "rc";
+            else if (a == "--enum")
+                mode = "enum";
+            else if (a == "--enum-count")
+                mode = "enum-count";
+            else if (a == "--from")
+                enum_from = atol(next().c_str());
+            else if (a == "--to")
+                enum_to = atol(next().c_str());
             else if (a == "--replay")
             {
                 mode = "replay";
@@ -476,6 +491,36 @@ namespace vh
             }
             return st.violated ? 1 : 0;
         }
+#ifdef VH_HAS_ENUM
+        if (mode == "enum-count")
+        {
+            std::cout << enum_count() << "\n";
+            return 0;
+        }
+        if (mode == "enum")
+        {
+            // complete enumeration of a finite sub-space (cases k = from .. to-1)
+            if (!out.empty())
+                cfg().current_path = out + ".current";
+            Stats& st = stats();
+            size_t total = enum_count();
+            size_t from = static_cast<size_t>(enum_from), to = enum_to < 0 ? total : std::min<size_t>(total, static_cast<size_t>(enum_to));
+            for (size_t k = from; k < to && !st.violated; ++k)
+            {
+                auto bytes = enum_case(k);
+                Ctx c;
+                Outcome o = run_one(bytes, c, true);
+                if (o == VIOL)
+                    st.violated = true;
+            }
+            if (!out.empty())
+            {
+                dump_stats(out, pid, wall(), "enum", seed);
+                remove((out + ".current").c_str());
+            }
+            return st.violated ? 1 : 0;
+        }
+#endif
         std::cerr << "usage: --rc ... | --replay FILE\n";
         return 64;
     }
